@@ -113,6 +113,13 @@ impl<const ROUNDS: usize> State<ROUNDS> {
         }
     }
 
+    #[cfg(cryptoxide_verif)]
+    #[inline]
+    pub(crate) fn verif_set_counter64(&mut self, counter: u64) {
+        self.state[8] = counter as u32;
+        self.state[9] = (counter >> 32) as u32;
+    }
+
     #[inline]
     pub(crate) fn output_bytes(&self, output: &mut [u8]) {
         write_u32v_le(output, &self.state);
@@ -167,6 +174,13 @@ impl<const ROUNDS: usize> Salsa<ROUNDS> {
 
         self.state.increment();
         self.offset = 0;
+    }
+
+    /// verification hook: set the full 64-bit block counter
+    #[cfg(cryptoxide_verif)]
+    pub fn verif_set_block_counter(&mut self, position: u64) {
+        self.state.verif_set_counter64(position);
+        self.offset = 64;
     }
 
     /// Process the input in place through the cipher xoring
@@ -246,6 +260,13 @@ impl<const ROUNDS: usize> XSalsa<ROUNDS> {
 
         self.state.increment();
         self.offset = 0;
+    }
+
+    /// verification hook: set the full 64-bit block counter
+    #[cfg(cryptoxide_verif)]
+    pub fn verif_set_block_counter(&mut self, position: u64) {
+        self.state.verif_set_counter64(position);
+        self.offset = 64;
     }
 
     /// Process the input in place through the cipher xoring
